@@ -32,16 +32,20 @@ Definition rarg_ok (r : rarg) : bool :=
 Definition rctx_ok (c : rctx) : bool := forallb rarg_ok (rc_args c).
 Definition named (c : rctx) : bool := match rc_name c with Some _ => true | None => false end.
 
+(** without an initial context there is no current context until the first
+    task name (and then [self.initial] stays None) *)
 Definition invc (m : machine) : bool :=
-  m_init m
-  && match m_cur m with Some k => Nat.ltb k (List.length (m_ctxs m)) | None => false end
+  match m_cur m with
+  | Some k => Nat.ltb k (List.length (m_ctxs m))
+  | None => negb (m_init m)
+  end
   && forallb rctx_ok (m_ctxs m)
   && forallb named (tl (m_ctxs m)).
 
 Definition ctx_wf (c : ctxspec) : bool := forallb arg_wf (cx_args c).
 
 Definition parser_wf (p : parser) : bool :=
-  match p_initial p with Some ic => ctx_wf ic | None => false end
+  match p_initial p with Some ic => ctx_wf ic | None => true end
   && forallb ctx_wf (p_ctxs p).
 
 Definition allowed (e : err) : Prop := e = EParse.
@@ -153,15 +157,26 @@ Qed.
 
 (** ** accessors under the invariant *)
 
-Lemma invc_cur m : invc m = true ->
+Lemma invc_cur m : invc m = true -> m_cur m <> None ->
   exists k c, m_cur m = Some k /\ get_ctx m k = Some c /\ rctx_ok c = true.
 Proof.
-  unfold invc. rewrite !andb_true_iff. intros [[[_ C] O] _].
-  destruct (m_cur m) as [k|]; [|discriminate]. apply Nat.ltb_lt in C.
+  unfold invc. rewrite !andb_true_iff. intros [[C O] _] Nn.
+  destruct (m_cur m) as [k|]; [|congruence]. apply Nat.ltb_lt in C.
   unfold get_ctx. destruct (nth_error (m_ctxs m) k) as [c|] eqn:N.
   - exists k, c. repeat split; auto. eapply nth_error_forallb; eauto.
   - apply nth_error_None in N. lia.
 Qed.
+
+Lemma invc_init_cur m : invc m = true -> m_init m = true -> m_cur m <> None.
+Proof.
+  unfold invc. rewrite !andb_true_iff. intros [[C _] _] In E. rewrite E, In in C. discriminate.
+Qed.
+
+Lemma has_flag_cur m tok : ctx_has_flag (cur_ctx m) tok = true -> m_cur m <> None.
+Proof. unfold cur_ctx. destruct (m_cur m); [discriminate | intros H; discriminate H]. Qed.
+
+Lemma has_inverse_cur m tok : ctx_has_inverse (cur_ctx m) tok = true -> m_cur m <> None.
+Proof. unfold cur_ctx. destruct (m_cur m); [discriminate | intros H; discriminate H]. Qed.
 
 Lemma invc_get_arg m f r : invc m = true -> get_arg m f = Some r -> rarg_ok r = true.
 Proof.
@@ -247,7 +262,7 @@ Proof.
   { eapply map_upd_nth_same; [exact N | reflexivity]. }
   split.
   - revert I. unfold invc, set_ctxs; simpl. rewrite !andb_true_iff.
-    intros [[[I1 I2] I3] I4]. repeat split; auto.
+    intros [[I2 I3] I4]. repeat split; auto.
     + rewrite length_upd_nth. exact I2.
     + apply forallb_upd_nth; [exact I3|]. unfold rctx_ok, c'; simpl.
       apply forallb_upd_nth; [|exact Ok'].
@@ -413,13 +428,11 @@ Proof.
   { unfold parser_wf in Pwf. apply andb_true_iff in Pwf. destruct Pwf as [_ W].
     rewrite forallb_forall in W. apply W. eapply find_some; eauto. }
   revert I1. unfold invc, running; simpl. rewrite !andb_true_iff.
-  intros [[[J1 J2] J3] J4]. rewrite F3. simpl. repeat split; auto.
+  intros [[J2 J3] J4]. rewrite F3. simpl. repeat split; auto.
   - apply Nat.ltb_lt. rewrite app_length. simpl. lia.
   - rewrite forallb_app, J3. simpl. rewrite init_ctx_ok; auto.
-  - assert (NE : m_ctxs m1 <> []).
-    { destruct (m_cur m1); [|discriminate]. apply Nat.ltb_lt in J2.
-      destruct (m_ctxs m1); simpl in *; [lia | congruence]. }
-    rewrite tl_app_nonempty by exact NE. rewrite forallb_app, J4. simpl.
+  - destruct (m_ctxs m1) as [|c0 l0] eqn:El; [reflexivity|].
+    rewrite tl_app_nonempty by discriminate. rewrite forallb_app, J4. simpl.
     unfold named, init_ctx; simpl. unfold ctx_named in Nc.
     destruct (cx_name c); [reflexivity | discriminate].
 Qed.
@@ -492,10 +505,15 @@ Proof.
   apply L_bind; [apply check_ambiguity_L; exact I|]. intros m1 I1 F1.
   apply L_bind; [apply complete_flag_L; exact I1|]. intros m2 I2 F2.
   pose proof (same_frame_trans _ _ _ F1 F2) as F12.
-  destruct (invc_cur m2 I2) as [k [c [C [N Oc]]]].
+  assert (Cn : m_cur m2 <> None).
+  { destruct F12 as (Fi & Fc & _). rewrite Fc. destruct inverse.
+    - eapply has_inverse_cur; eauto.
+    - unfold flag_known in K. apply orb_true_iff in K. destruct K as [K|K].
+      + eapply has_flag_cur; eauto.
+      + apply invc_init_cur; [exact I|]. unfold init_ctx_of in K.
+        destruct (m_init m); [reflexivity | discriminate K]. }
+  destruct (invc_cur m2 I2 Cn) as [k [c [C [N Oc]]]].
   unfold cur_ctx. rewrite C, N.
-  assert (Init : m_init m2 = true).
-  { revert I2. unfold invc. rewrite !andb_true_iff. tauto. }
   assert (Hfound : forall fl,
              flag_known m2 fl = true ->
              L m2 (match
@@ -570,10 +588,10 @@ Proof.
   intros m2 I2 F2. simpl. apply set_flag_frame. exact I2.
 Qed.
 
-Lemma see_positional_L tok m : invc m = true -> L m (see_positional_arg tok m).
+Lemma see_positional_L tok m : invc m = true -> m_cur m <> None -> L m (see_positional_arg tok m).
 Proof.
-  intros I. unfold see_positional_arg.
-  destruct (invc_cur m I) as [k [c [C [N _]]]]. unfold cur_ctx. rewrite C, N.
+  intros I Cn. unfold see_positional_arg.
+  destruct (invc_cur m I Cn) as [k [c [C [N _]]]]. unfold cur_ctx. rewrite C, N.
   destruct (missing_positional (rc_args c)) as [|i l];
     [simpl; split; [exact I | apply same_frame_refl]|].
   apply set_arg_value_checked_L; [exact I | reflexivity].
@@ -593,8 +611,9 @@ Proof.
   { apply L_G with (m := m); [exact R|]. apply switch_to_flag_L; [exact I | exact HI]. }
   destruct (waiting m).
   { apply L_G with (m := m); [exact R|]. apply see_value_L; exact I. }
-  match goal with |- G (if ?b then _ else _) => destruct b end.
-  { apply L_G with (m := m); [exact R|]. apply see_positional_L; exact I. }
+  match goal with |- G (if ?b then _ else _) => destruct b eqn:HM end.
+  { apply L_G with (m := m); [exact R|]. apply see_positional_L; [exact I|].
+    unfold cur_ctx in HM. destruct (m_cur m); [discriminate | discriminate HM]. }
   destruct (is_ctx_name (p_ctxs p) tok) eqn:CN.
   { apply see_context_G; auto. unfold running in R. destruct (m_st m); simpl in *; congruence. }
   destruct (init_ctx_of m) as [ic|] eqn:IC.
@@ -603,7 +622,10 @@ Proof.
   2:{ destruct (p_ignore p); [apply see_unknown_G; assumption | simpl; reflexivity]. }
   unfold find_flag in FF. destruct (find_index_some _ _ _ FF) as [r [Nr _]]. rewrite Nr.
   destruct (String.eqb (arg_name (r_spec r)) "help") eqn:Hh.
-  - destruct (invc_cur m I) as [k [c [C [N _]]]].
+  - assert (Cn : m_cur m <> None).
+    { apply invc_init_cur; [exact I|]. unfold init_ctx_of in IC.
+      destruct (m_init m); [reflexivity | discriminate IC]. }
+    destruct (invc_cur m I Cn) as [k [c [C [N _]]]].
     assert (CC : cur_ctx m = Some c) by (unfold cur_ctx; rewrite C; exact N).
     rewrite CC.
     assert (Nm : exists n, rc_name c = Some n).
@@ -635,10 +657,8 @@ Lemma step_G m t :
   end.
 Proof.
   intros I R. unfold step, bind.
-  destruct (invc_cur m I) as [k [c [C [N _]]]].
-  assert (CC : cur_ctx m = Some c) by (unfold cur_ctx; rewrite C; exact N).
   assert (P : exists sp, presplit m t = Ok sp).
-  { unfold presplit. rewrite CC.
+  { unfold presplit.
     destruct (is_flag t && match m_unparsed m with [] => true | _ => false end); [|eauto].
     destruct (contains_char "=" t).
     { destruct (partition_char "=" t) as [[h f] v]. eauto. }
@@ -646,7 +666,7 @@ Proof.
     match goal with |- exists sp, (if ?b then _ else _) = Ok sp => destruct b end; eauto. }
   destruct P as [sp ->].
   assert (Rb : exists sp', rollback m t sp = Ok sp').
-  { unfold rollback. rewrite CC. destruct (waiting m); [|eauto].
+  { unfold rollback. destruct (waiting m); [|eauto].
     match goal with |- exists sp', (if ?b then _ else _) = Ok sp' => destruct b end; eauto. }
   destruct Rb as [sp' ->].
   pose proof (handle_G (fst sp') m I R) as H.
@@ -667,10 +687,12 @@ Qed.
 Lemma new_machine_G : G (new_machine p).
 Proof.
   unfold new_machine. unfold parser_wf in Pwf. apply andb_true_iff in Pwf.
-  destruct Pwf as [Wi _]. destruct (p_initial p) as [ic|]; [|discriminate].
-  apply L_G with (m := mkM [init_ctx ic] true (Some 0) [] None false SContext []);
-    [reflexivity|].
-  apply enter_state_L. unfold invc; simpl. rewrite init_ctx_ok by exact Wi. reflexivity.
+  destruct Pwf as [Wi _]. destruct (p_initial p) as [ic|].
+  - apply L_G with (m := mkM [init_ctx ic] true (Some 0) [] None false SContext []);
+      [reflexivity|].
+    apply enter_state_L. unfold invc; simpl. rewrite init_ctx_ok by exact Wi. reflexivity.
+  - apply L_G with (m := mkM [] false None [] None false SContext []); [reflexivity|].
+    apply enter_state_L. reflexivity.
 Qed.
 
 Lemma finish_ok m : invc m = true -> running m = true ->
@@ -702,9 +724,10 @@ End Errors.
 
 (** ** The theorem *)
 
-(** The boolean guard of the partial theorem: a parser with an initial context
-    whose arguments (and those of the task contexts) are well-formed.
-    Int-valued arguments are allowed. *)
+(** The boolean guard of the theorem: the parser can be constructed
+    ([parser_ok]) and its arguments (initial context, if any, and task contexts)
+    are well-formed.  Int-valued arguments are allowed; an initial context is
+    not required (repair e36c9e6). *)
 Definition c07_guard (cs : list ctxspec) (init : option ctxspec) : bool :=
   parser_ok cs && parser_wf (mkP cs init false).
 
